@@ -149,3 +149,24 @@ Proof.
   - vm_compute. do 4 right. left. reflexivity.
 Qed.
 Print Assumptions C11_stale_key_across_groups_refuted.
+
+(* ------------------------------------------------------------------ hint queries ignore the shard key *)
+(* cpu sharded by host, 8 shards. SELECT /*+ full_series */ .. WHERE dc='d2' AND host='h4': today's TargetShardsHintQuery
+   hashes "dc=d2,host=h4" (all tags of the condition), the row was placed by hash("host=h4"). *)
+Definition ex_cond_full : expr := EAnd (EEq 0%N s_dc [100; 50]%N) (EEq 1%N s_host [104; 52]%N).
+Definition ex_point_full : point :=
+  {| p_tags := [(s_dc, [100; 50]%N); (s_host, [104; 52]%N)]; p_time := 1699999200000000005; p_leaf := fun _ => false |}.
+
+Theorem C11_hint_ignores_shardkey_refuted :
+  exists s, route_in xxh64 ex_cfg ex_group ex_point_full = Some s /\
+    eval_cond ex_cfg (Some ex_cond_full) ex_point_full = true /\
+    ~ In (s_id s) (map s_id (target_hint xxh64 false repaired ex_cfg ex_group (Some ex_cond_full))) /\
+    In (s_id s) (map s_id (target_hint xxh64 true repaired ex_cfg ex_group (Some ex_cond_full))).
+Proof.
+  destruct (route_in xxh64 ex_cfg ex_group ex_point_full) as [s|] eqn:E; [|vm_compute in E; discriminate].
+  exists s. split; [reflexivity|]. split; [vm_compute; reflexivity|].
+  vm_compute in E. inversion E; subst s. split.
+  - vm_compute. intros [H|[]]; discriminate.
+  - vm_compute. left; reflexivity.
+Qed.
+Print Assumptions C11_hint_ignores_shardkey_refuted.
